@@ -7,6 +7,7 @@ import (
 	"go/types"
 	"math"
 	"regexp/syntax"
+	"sort"
 	"strings"
 
 	"golang.org/x/tools/go/ssa"
@@ -206,68 +207,126 @@ func checkC18(c *Ctx, w *World) {
 		}
 		cs := newCondSpace(parse, recOf(atoms...), atomNames(atoms...)...)
 		A := cs.Atom
-		// which slice is iterated
-		okSel := false
+		// the entries that are tested for the prefix, and the slice they are elements of
+		var tested []*ssa.Call
 		eachInstr(parse, func(in ssa.Instruction) {
-			ph, ok := in.(*ssa.Phi)
-			if !ok || shortType(ph.Type()) != "[]string" {
-				return
-			}
-			good := len(ph.Edges) == 2
-			for ei, e := range ph.Edges {
-				pred := ph.Block().Preds[ei]
-				reach := cs.ReachBlock(pred)
-				switch {
-				case lookupOf(hdr)(e):
-					if imp, _ := cs.Implies(reach, A("hdrNonEmpty")); !imp {
-						good = false
-					}
-				case lookupOf(trl)(e):
-					if imp, _ := cs.Implies(reach, cs.And(cs.Not(A("hdrNonEmpty")), A("trlNonEmpty"))); !imp {
-						good = false
-					}
-				default:
-					good = false
+			if call, ok := staticCallNamed(valueOf(in), "strings.HasPrefix"); ok {
+				if s, isS := constString(call.Call.Args[1]); isS && s == "gfet4t7; dur=" {
+					tested = append(tested, call)
 				}
 			}
-			if good {
-				okSel = true
-			}
 		})
-		c.check(okSel, "C18.header", "parseT4T7Latency: header before trailer", p.pos(parse.Pos()), "the header's server-timing values are used when non-empty, the trailer's only when the header has none", "the server-timing header is not preferred over the trailer")
-		nOK := 0
-		for i, r := range returnsOf(parse) {
-			construct := fmt.Sprintf("parseT4T7Latency return#%d", i+1)
-			nilErr, _ := allOrigins(r.Results[1], isConstNilOrigin)
-			if nilErr {
+		okSel := len(tested) == 1
+		whySel := fmt.Sprintf("%d prefix tests", len(tested))
+		var entry ssa.Value
+		var scan *Loop
+		if okSel {
+			entry = tested[0].Call.Args[0]
+			slice, isElem := elemOfSlice(entry)
+			for _, l := range loopsOf(parse) {
+				if l.Blocks[tested[0].Block()] && (scan == nil || len(l.Blocks) < len(scan.Blocks)) {
+					scan = l
+				}
+			}
+			if !isElem || scan == nil {
+				okSel, whySel = false, "the tested entry is not an element of a scanned slice"
+			} else {
+				// what the scanned slice can be, and when
+				n := 0
+				for _, rv := range cs.ResolveWithConds(slice, cs.ReachBlock(scan.Header)) {
+					n++
+					var want Bits
+					switch {
+					case lookupOf(hdr)(rv.V):
+						want = A("hdrNonEmpty")
+					case lookupOf(trl)(rv.V):
+						want = cs.And(cs.Not(A("hdrNonEmpty")), A("trlNonEmpty"))
+					case isNilConst(rv.V):
+						want = cs.And(cs.Not(A("hdrNonEmpty")), cs.Not(A("trlNonEmpty")))
+					default:
+						okSel, whySel = false, "the scanned slice can be "+vstr(rv.V)
+						continue
+					}
+					if imp, wit := cs.Implies(rv.C, want); !imp {
+						okSel, whySel = false, "the scanned slice is "+vstr(rv.V)+" although "+wit
+					}
+				}
+				if n == 0 || !cs.Seen("hdrNonEmpty") || !cs.Seen("trlNonEmpty") {
+					okSel, whySel = false, "header / trailer emptiness is not tested"
+				}
+			}
+		}
+		c.check(okSel, "C18.header", "parseT4T7Latency: header before trailer", p.pos(parse.Pos()), "the header's server-timing values are scanned when non-empty, the trailer's only when the header has none", "the server-timing header is not preferred over the trailer: "+whySel)
+		// exits: success ⇒ this entry is prefixed and its number parsed, value = parsed milliseconds; errors carry 0
+		nOK, okSucc, okErr := 0, true, true
+		whySucc, whyErr := "", ""
+		var posSucc, posErr string
+		for _, vr := range cs.VirtualReturns() {
+			errV := stripConv(vr.Vals[1])
+			if isNilConst(errV) {
 				nOK++
-				imp, wit := cs.Implies(cs.Reach(r), cs.And(A("prefixed"), A("parseOK")))
-				// value: Duration(parsed) * Millisecond of the entry that was tested
+				posSucc = p.ipos(vr.Ret)
+				imp, wit := cs.Implies(vr.Cond, cs.And(A("prefixed"), A("parseOK")))
+				if !imp {
+					okSucc, whySucc = false, "a duration is returned although "+wit
+				}
 				val := false
-				if mul, ok := r.Results[0].(*ssa.BinOp); ok && mul.Op == token.MUL {
+				if mul, ok := stripConv(vr.Vals[0]).(*ssa.BinOp); ok && mul.Op == token.MUL {
 					x, y := mul.X, mul.Y
 					if _, isC := constInt(x); isC {
 						x, y = y, x
 					}
 					ms, isC := constInt(y)
-					if isC && ms == 1000000 && extractOf(0, callTo("strconv.ParseInt"))(stripConv(x)) {
-						val = true
+					if ex, isE := stripConv(x).(*ssa.Extract); isC && ms == 1000000 && isE && ex.Index == 0 {
+						if pc, isP := staticCallNamed(ex.Tuple, "strconv.ParseInt"); isP && entry != nil && restAfterPrefix(pc.Call.Args[0], entry, "gfet4t7; dur=") {
+							if base, isB := constInt(pc.Call.Args[1]); isB && base == 10 {
+								val = true
+							}
+						}
 					}
 				}
-				c.check(imp && val, "C18.header", construct, p.ipos(r), "success ⇒ the entry has the gfet4t7 prefix and its number parsed; result = parsed milliseconds", "a duration is returned for an entry without the prefix / with a parse error, or is not the parsed value: "+wit)
+				if !val {
+					okSucc, whySucc = false, "the returned duration is not the decimal number after the tested entry's prefix, in milliseconds"
+				}
 				continue
 			}
-			// error returns: zero duration
-			z, isZ := constInt(r.Results[0])
-			c.check(isZ && z == 0, "C18.header", construct, p.ipos(r), "error returns carry a zero duration", "error return with a non-zero duration")
+			if !certainlyNonNil(errV) {
+				okErr, whyErr, posErr = false, "an exit whose error may or may not be nil: "+vstr(errV), p.ipos(vr.Ret)
+				continue
+			}
+			if z, isZ := constInt(vr.Vals[0]); !isZ || z != 0 {
+				okErr, whyErr, posErr = false, "error return with a non-zero duration", p.ipos(vr.Ret)
+			}
 		}
-		c.check(nOK == 1, "C18.header", "parseT4T7Latency: first match returns", p.pos(parse.Pos()), "one success exit, inside the scan (the first prefixed entry decides)", fmt.Sprintf("%d success exits", nOK))
+		if posSucc == "" {
+			posSucc = p.pos(parse.Pos())
+		}
+		if posErr == "" {
+			posErr = p.pos(parse.Pos())
+		}
+		c.check(nOK >= 1 && okSucc, "C18.header", "parseT4T7Latency: success exits", posSucc, "success ⇒ the entry has the gfet4t7 prefix and its number parsed; result = parsed milliseconds of that entry", fmt.Sprintf("%d success exits; %s", nOK, whySucc))
+		c.check(okErr, "C18.header", "parseT4T7Latency: error exits", posErr, "error returns carry a zero duration", whyErr)
+		// the first prefixed entry decides: the scan goes on to the next entry only past entries without the prefix
+		okFirst, whyFirst := scan != nil && len(scan.Latch) > 0, "no scan loop"
+		if scan != nil {
+			for _, latch := range scan.Latch {
+				for si, sb := range latch.Succs {
+					if sb != scan.Header {
+						continue
+					}
+					if imp, wit := cs.Implies(cs.EdgeCond(latch, si), cs.Not(A("prefixed"))); !imp || !cs.Seen("prefixed") {
+						okFirst, whyFirst = false, "the scan continues past a prefixed entry: "+wit
+					}
+				}
+			}
+		}
+		c.check(okFirst, "C18.header", "parseT4T7Latency: first match returns", p.pos(parse.Pos()), "the scan moves on only past entries without the prefix (the first prefixed entry decides)", whyFirst)
 		// no entry / both empty ⇒ error
 		bothEmpty := cs.And(cs.Not(A("hdrNonEmpty")), cs.Not(A("trlNonEmpty")))
 		errReach := cs.False()
-		for _, r := range returnsOf(parse) {
-			if nilErr, _ := allOrigins(r.Results[1], isConstNilOrigin); !nilErr {
-				errReach = or(errReach, cs.Reach(r))
+		for _, vr := range cs.VirtualReturns() {
+			if certainlyNonNil(vr.Vals[1]) {
+				errReach = or(errReach, vr.Cond)
 			}
 		}
 		imp, _ := cs.Implies(bothEmpty, cs.OnlyNamed(errReach))
@@ -329,18 +388,25 @@ func checkC18(c *Ctx, w *World) {
 			okPat, whyPat := safeNamePattern(pat)
 			// a failed match appends an error that reaches the result
 			reported := false
-			if iff := ifOn(found); iff != nil {
-				fb := iff.Block().Succs[1]
-				for _, in := range fb.Instrs {
-					if call, ok := in.(*ssa.Call); ok && calleeOf(&call.Call).Builtin == "append" {
-						for _, r := range returnsOf(vf) {
-							for _, o := range origins(r.Results[0]) {
-								if o.Val == ssa.Value(call) || reachesThroughAppends(o.Val, call) {
-									reported = true
-								}
+			{
+				vcs := newCondSpace(vf, recOf(boolAtom("match", isVal(found))), "match")
+				appended := vcs.False()
+				eachInstr(vf, func(in ssa.Instruction) {
+					call, ok := in.(*ssa.Call)
+					if !ok || calleeOf(&call.Call).Builtin != "append" || !dominatesInstr(found, call) {
+						return
+					}
+					for _, r := range returnsOf(vf) {
+						for _, o := range origins(r.Results[0]) {
+							if o.Val == ssa.Value(call) || reachesThroughAppends(o.Val, call) {
+								appended = or(appended, vcs.Reach(call))
+								return
 							}
 						}
 					}
+				})
+				if imp, _ := vcs.Implies(vcs.And(vcs.Reach(found), vcs.Not(vcs.Atom("match"))), appended); imp && vcs.Seen("match") {
+					reported = true
 				}
 			}
 			c.check(okPat && reported, "C18.regex", construct, p.ipos(found), fmt.Sprintf("matched against the constant pattern %q (%s); a failed match is reported", pat, whyPat), fmt.Sprintf("flag validation does not confine the value to a slash-free anchored class (pattern %q: %s; failure reported=%v)", pat, whyPat, reported))
@@ -425,69 +491,107 @@ func checkC18(c *Ctx, w *World) {
 
 	// ---- C18.type
 	{
-		nNil := 0
-		names := map[string]bool{}
-		okType := true
+		// every constant the argument is compared with becomes an atom; success must be reached exactly under the six names
 		tprm := ppt.Params[0]
-		for _, r := range returnsOf(ppt) {
-			nilErr, _ := allOrigins(r.Results[1], isConstNilOrigin)
-			if !nilErr {
-				continue
+		names := map[string]bool{}
+		eachInstr(ppt, func(in ssa.Instruction) {
+			bo, ok := in.(*ssa.BinOp)
+			if !ok || (bo.Op != token.EQL && bo.Op != token.NEQ) {
+				return
 			}
-			nNil++
-			// reached under t == "<literal>"
-			matched := false
-			for _, b := range ppt.Blocks {
-				iff, ok := b.Instrs[len(b.Instrs)-1].(*ssa.If)
-				if !ok || b.Succs[0] != r.Block() {
-					continue
-				}
-				if bo2, ok := iff.Cond.(*ssa.BinOp); ok && bo2.Op == token.EQL && bo2.X == ssa.Value(tprm) {
-					if s, isS := constString(bo2.Y); isS {
-						names[s] = true
-						matched = true
-					}
+			for _, pair := range [][2]ssa.Value{{bo.X, bo.Y}, {bo.Y, bo.X}} {
+				if s, isS := constString(pair[1]); isS && isVal(tprm)(pair[0]) {
+					names[s] = true
 				}
 			}
-			if !matched {
-				okType = false
-			}
+		})
+		var defs []atomDef
+		var sorted []string
+		for n := range names {
+			sorted = append(sorted, n)
 		}
+		sort.Strings(sorted)
+		for _, n := range sorted {
+			n := n
+			defs = append(defs, eqAtom("t="+n, isVal(tprm), func(v ssa.Value) bool { s, ok := constString(v); return ok && s == n }))
+		}
+		cs := newCondSpace(ppt, recOf(defs...), atomNames(defs...)...)
+		cs.ExclusiveAtoms(atomNames(defs...)...)
 		want := []string{"noop", "stale_read", "strong_query", "stale_query", "dml", "read_write"}
+		okType, whyType := true, ""
+		wantC := cs.False()
 		for _, wnt := range want {
 			if !names[wnt] {
-				okType = false
+				okType, whyType = false, "the name "+wnt+" is never tested"
+				continue
+			}
+			wantC = or(wantC, cs.Atom("t="+wnt))
+		}
+		succ := cs.False()
+		nNil := 0
+		for _, vr := range cs.VirtualReturns() {
+			errV := stripConv(vr.Vals[1])
+			switch {
+			case isNilConst(errV):
+				nNil++
+				succ = or(succ, vr.Cond)
+			case certainlyNonNil(errV):
+			default:
+				okType, whyType = false, "an exit whose error may or may not be nil: "+vstr(errV)
 			}
 		}
-		c.check(okType && nNil == 6 && len(names) == 6, "C18.type", "ParseProbeType", p.pos(ppt.Pos()), "a nil error is returned exactly for the six literal probe types; anything else yields an error", fmt.Sprintf("probe-type parsing accepts %d names %v (nil-error returns: %d)", len(names), names, nNil))
+		if okType {
+			if eq, wit := cs.Equiv(cs.OnlyNamed(succ), wantC); !eq {
+				okType, whyType = false, "a nil error is not returned exactly for the six names: "+wit
+			}
+		}
+		c.check(okType && nNil > 0, "C18.type", "ParseProbeType", p.pos(ppt.Pos()), "a nil error is returned exactly for the six literal probe types; anything else yields an error", fmt.Sprintf("probe-type parsing (names compared: %v, nil-error exits: %d): %s", sorted, nNil, whyType))
+		// validation: ParseProbeType(flag) failing ⇒ its error is appended to the result
 		okV := false
+		whyV := "an unparsable probe type is not reported by flag validation"
 		eachInstr(vf, func(in ssa.Instruction) {
 			call, ok := in.(*ssa.Call)
 			if !ok || !isCallTo(call, ppt, p) || !flagValue(call.Call.Args[0], "probeType") {
 				return
 			}
-			// err != nil ⇒ appended
+			var errV ssa.Value
 			for _, r := range *call.Referrers() {
 				if e, isE := r.(*ssa.Extract); isE && e.Index == 1 {
-					for _, rr := range *e.Referrers() {
-						if cmp, isB := rr.(*ssa.BinOp); isB && cmp.Op == token.NEQ && isNilConst(cmp.Y) {
-							if iff := ifOn(cmp); iff != nil {
-								for _, in2 := range iff.Block().Succs[0].Instrs {
-									if ap, ok := in2.(*ssa.Call); ok && calleeOf(&ap.Call).Builtin == "append" {
-										for _, a := range variadicArgs(ap.Call.Args[1]) {
-											if a == ssa.Value(e) {
-												okV = true
-											}
-										}
-									}
-								}
+					errV = e
+				}
+			}
+			if errV == nil {
+				return
+			}
+			vcs := newCondSpace(vf, recOf(eqAtom("perr=nil", isVal(errV), isNil)), "perr=nil")
+			appended := vcs.False()
+			eachInstr(vf, func(in2 ssa.Instruction) {
+				ap, ok := in2.(*ssa.Call)
+				if !ok || calleeOf(&ap.Call).Builtin != "append" || !dominatesInstr(call, ap) {
+					return
+				}
+				for _, a := range variadicArgs(ap.Call.Args[1]) {
+					if cellValue(a) != cellValue(errV) {
+						continue
+					}
+					// the appended slice must be what is returned
+					for _, r := range returnsOf(vf) {
+						for _, o := range origins(r.Results[0]) {
+							if o.Val == ssa.Value(ap) || reachesThroughAppends(o.Val, ap) {
+								appended = or(appended, vcs.Reach(ap))
 							}
 						}
 					}
 				}
+			})
+			after := vcs.Reach(call)
+			if imp, wit := vcs.Implies(vcs.And(after, vcs.Not(vcs.Atom("perr=nil"))), appended); imp && vcs.Seen("perr=nil") {
+				okV = true
+			} else {
+				whyV = "ParseProbeType's error is not appended to the returned errors whenever it is non-nil: " + wit
 			}
 		})
-		c.check(okV, "C18.type", "validateFlags reports an unparsable probe type", p.pos(vf.Pos()), "ParseProbeType(flag)'s error is appended to the validation errors", "an unparsable probe type is not reported by flag validation")
+		c.check(okV, "C18.type", "validateFlags reports an unparsable probe type", p.pos(vf.Pos()), "ParseProbeType(flag)'s error is appended to the validation errors", whyV)
 	}
 
 	// ---- C18.interval
@@ -663,37 +767,132 @@ func checkC18(c *Ctx, w *World) {
 		if gen == nil {
 			c.fail("C18.hash", "generatePayload", "-", "payload generator not found")
 		} else {
-			okH := false
-			for _, r := range returnsOf(gen) {
-				if nilErr, _ := allOrigins(r.Results[2], isConstNilOrigin); !nilErr {
+			hcs := newCondSpace(gen, recOf(eqAtom("werr=nil", func(v ssa.Value) bool { return isErrorResultOf(v, "Write") }, isNil)), "werr=nil")
+			okH, nSucc := true, 0
+			whyH := ""
+			same := func(a, b ssa.Value) bool { return cellValue(a) == cellValue(b) }
+			for _, vr := range hcs.VirtualReturns() {
+				errV := stripConv(vr.Vals[2])
+				if !isNilConst(errV) {
+					nonNil := certainlyNonNil(errV)
+					if !nonNil && isErrorResultOf(errV, "Write") {
+						nonNil, _ = hcs.Implies(vr.Cond, hcs.Not(hcs.Atom("werr=nil")))
+					}
+					if !nonNil {
+						okH, whyH = false, "an exit whose error may or may not be nil: "+vstr(errV)
+					}
 					continue
 				}
-				sum, ok := r.Results[1].(*ssa.Call)
-				if !ok || !sum.Call.IsInvoke() || sum.Call.Method.Name() != "Sum" || !isNilConst(sum.Call.Args[0]) {
-					continue
-				}
-				h := sum.Call.Value
-				_, isNew := staticCallNamed(h, "sha256.New")
-				writes := 0
-				wOK := false
-				eachInstr(gen, func(in ssa.Instruction) {
-					if call, ok := in.(*ssa.Call); ok && call.Call.IsInvoke() && call.Call.Value == h && call.Call.Method.Name() == "Write" {
-						writes++
-						if call.Call.Args[0] == r.Results[0] && dominatesInstr(call, sum) {
-							wOK = true
+				nSucc++
+				payload := vr.Vals[0]
+				good := false
+				switch hv := cellValue(vr.Vals[1]).(type) {
+				case *ssa.Call:
+					// h.Sum(nil) with h = sha256.New() written exactly once, with exactly the returned slice, before
+					if hv.Call.IsInvoke() && hv.Call.Method.Name() == "Sum" && isNilConst(hv.Call.Args[0]) {
+						h := hv.Call.Value
+						_, isNew := staticCallNamed(h, "sha256.New")
+						writes, wOK, other := 0, false, false
+						eachInstr(gen, func(in ssa.Instruction) {
+							call, ok := in.(*ssa.Call)
+							if !ok || !call.Call.IsInvoke() || call.Call.Value != h || call == hv {
+								return
+							}
+							switch call.Call.Method.Name() {
+							case "Write":
+								writes++
+								if same(call.Call.Args[0], payload) && dominatesInstr(call, hv) {
+									wOK = true
+								}
+							case "Size", "BlockSize":
+							default:
+								other = true
+							}
+						})
+						good = isNew && writes == 1 && wOK && !other
+					}
+				case *ssa.Slice:
+					// sum := sha256.Sum256(payload); sum[:]
+					if a, isA := hv.X.(*ssa.Alloc); isA && hv.Low == nil && hv.High == nil {
+						if sts := storesTo(a); len(sts) == 1 {
+							if call, ok := staticCallNamed(sts[0].Val, "sha256.Sum256"); ok && same(call.Call.Args[0], payload) {
+								good = true
+							}
 						}
 					}
-				})
-				if isNew && writes == 1 && wOK {
-					okH = true
+				}
+				if !good {
+					okH, whyH = false, "the returned hash is not the SHA-256 of the returned payload"
 				}
 			}
-			c.check(okH, "C18.hash", "generatePayload", p.pos(gen.Pos()), "returns (payload, sha256(payload)): one Write of exactly the returned slice, then Sum(nil)", "the returned hash is not the SHA-256 of the returned payload")
+			okH = okH && nSucc > 0
+			c.check(okH, "C18.hash", "generatePayload", p.pos(gen.Pos()), "returns (payload, sha256(payload)): one Write of exactly the returned slice, then Sum(nil)", fmt.Sprintf("%d success exits; %s", nSucc, whyH))
 		}
 	}
 }
 
 // ifOn returns the If instruction controlled directly by v.
+// isErrorResultOf: v is the error result of a call of the named method / function.
+func isErrorResultOf(v ssa.Value, name string) bool {
+	ex, ok := stripConv(v).(*ssa.Extract)
+	if !ok {
+		return false
+	}
+	call, ok := ex.Tuple.(*ssa.Call)
+	if !ok {
+		return false
+	}
+	if call.Call.IsInvoke() {
+		return call.Call.Method.Name() == name
+	}
+	return strings.HasSuffix(calleeOf(&call.Call).Name(), name)
+}
+
+// elemOfSlice: v is an element read from a slice (range value, s[i]); returns the slice.
+func elemOfSlice(v ssa.Value) (ssa.Value, bool) {
+	v = stripConv(v)
+	if cv := cellValue(v); cv != v {
+		v = stripConv(cv)
+	}
+	switch x := v.(type) {
+	case *ssa.Extract:
+		if nx, ok := x.Tuple.(*ssa.Next); ok && x.Index == 2 {
+			if rng, ok := nx.Iter.(*ssa.Range); ok {
+				return rng.X, true
+			}
+		}
+	case *ssa.UnOp:
+		if ia, ok := x.X.(*ssa.IndexAddr); ok && x.Op == token.MUL {
+			return ia.X, true
+		}
+	case *ssa.Index:
+		return x.X, true
+	}
+	return nil, false
+}
+
+// restAfterPrefix: v is what follows the constant prefix in entry: strings.TrimPrefix(entry, prefix), entry[len(prefix):],
+// or the first result of strings.CutPrefix(entry, prefix).
+func restAfterPrefix(v, entry ssa.Value, prefix string) bool {
+	v = stripConv(v)
+	same := func(a ssa.Value) bool { return stripConv(a) == stripConv(entry) || kstr(a) == kstr(entry) }
+	isPrefix := func(a ssa.Value) bool { s, ok := constString(a); return ok && s == prefix }
+	if call, ok := staticCallNamed(v, "strings.TrimPrefix"); ok {
+		return same(call.Call.Args[0]) && isPrefix(call.Call.Args[1])
+	}
+	if ex, ok := v.(*ssa.Extract); ok && ex.Index == 0 {
+		if call, ok := staticCallNamed(ex.Tuple, "strings.CutPrefix"); ok {
+			return same(call.Call.Args[0]) && isPrefix(call.Call.Args[1])
+		}
+	}
+	if sl, ok := v.(*ssa.Slice); ok && sl.High == nil && sl.Low != nil && same(sl.X) {
+		if n, isC := constInt(sl.Low); isC && n == int64(len(prefix)) {
+			return true
+		}
+	}
+	return false
+}
+
 func ifOn(v ssa.Value) *ssa.If {
 	if v.Referrers() == nil {
 		return nil
